@@ -74,7 +74,7 @@ fn min_chunk_size(input_len: Option<usize>, max_num_threads: usize, chunk_size: 
         None => chunk_size,
         Some(0) => 1,
         Some(len) => {
-            let one_round_len = max_num_threads * chunk_size;
+            let one_round_len = max_num_threads.saturating_mul(chunk_size);
             match one_round_len.cmp(&len) {
                 Ordering::Greater => div_ceil(len, max_num_threads),
                 _ => chunk_size,
